@@ -253,8 +253,13 @@ package config
 // Parse: strict TOML decode, at least one interface, valid debug address,
 // every interface name unique (C02 G1-G3, I3).
 //@ func Parse
+//@   ghost local strictDec Int
+//@   ghost local strictOn Bool
 //@   requires G1: sentinelsOK() && epochOK(epoch)
 //@   assigns everything
+//@   at call Strict(sd, ss): assert T1 [C02]: ss
+//@   at call Strict(sd2, ss2) (sr): ghost.strictDec = sr ; ghost.strictOn = true
+//@   at call Decode(dd, dv): assert T2 [C02]: ghost.strictOn && dd == ghost.strictDec
 //@   loop 1 invariant P1 [C02,C03]: 0 <= rangeindex1 + 1 && rangeindex1 + 1 <= len(f.Interfaces) && c != nil && fresh(c) && seen != nil && fresh(seen) && len(f.Interfaces) > 0 && (c.Debug.Address == "" || tcpAddrOK(c.Debug.Address)) && (rangeindex1 + 1 > 0 ==> len(c.Interfaces) >= 1)
 //@   loop 1 invariant P2 [C02,C03,C05,C01]: forall(k, 0, len(c.Interfaces), headerCfgOK(c.Interfaces[k]) && pluginsCfgOK(c.Interfaces[k].Plugins) && (c.Interfaces[k].Advertise ==> validIntervals(c.Interfaces[k].MinInterval, c.Interfaces[k].MaxInterval)) && has(seen, c.Interfaces[k].Name))
 //@   loop 1 invariant P3 [C02]: forall(a, 0, len(c.Interfaces), forall(b, a + 1, len(c.Interfaces), c.Interfaces[a].Name != c.Interfaces[b].Name))
